@@ -8,6 +8,72 @@ from concurrent.futures import ProcessPoolExecutor
 CVC5 = '/usr/bin/cvc5'
 
 
+def _symbols(e, z3, cache):
+    """uninterpreted constants / functions occurring in e"""
+    out = set()
+    todo = [e]
+    seen = set()
+    while todo:
+        x = todo.pop()
+        k = x.get_id()
+        if k in seen:
+            continue
+        seen.add(k)
+        if z3.is_quantifier(x):
+            todo.append(x.body())
+        elif z3.is_app(x):
+            d = x.decl()
+            if d.kind() == z3.Z3_OP_UNINTERPRETED:
+                out.add(d.name())
+            todo.extend(x.children())
+    return out
+
+
+def _coi_slice(smt2, timeout_s, expect_unsat=True):
+    """Cone-of-influence fallback for `unknown`: the assertions are split into the connected component (shared
+    uninterpreted symbols) of the last assertion (the negated goal) and the rest.  slice unsat => the whole query is
+    unsat.  slice sat and the rest not refutable (it shares no symbol with the slice, so the union is satisfiable iff
+    both are) => sat, with the model of the slice.  -> (verdict, model, raw) or None when nothing was dropped."""
+    import z3
+    ctx = z3.Context()
+    asserts = list(z3.parse_smt2_string(smt2, ctx=ctx))
+    if len(asserts) < 2:
+        return None
+    syms = [_symbols(a, z3, None) for a in asserts]
+    cone = set(syms[-1])
+    inside = {len(asserts) - 1}
+    changed = True
+    while changed:
+        changed = False
+        for i, sy in enumerate(syms):
+            if i not in inside and sy & cone:
+                inside.add(i)
+                cone |= sy
+                changed = True
+    if len(inside) == len(asserts):
+        return None
+    s = z3.Solver(ctx=ctx)
+    s.set('timeout', int(timeout_s * 1000))
+    for i in sorted(inside):
+        s.add(asserts[i])
+    r = s.check()
+    if r == z3.unsat:
+        return 'unsat', None, f'coi-slice unsat ({len(inside)}/{len(asserts)} assertions)'
+    if r != z3.sat:
+        return None
+    m = s.model()
+    model = {str(d.name()): str(m[d]) for d in m.decls() if d.arity() == 0}
+    s2 = z3.Solver(ctx=ctx)
+    s2.set('timeout', int(min(timeout_s, 4) * 1000))
+    for i in range(len(asserts)):
+        if i not in inside:
+            s2.add(asserts[i])
+    r2 = s2.check()
+    if r2 == z3.unsat:
+        return 'unsat', None, 'coi-slice: the dropped assumptions are contradictory (dead path)'
+    return 'sat', (model, str(m)[:4000]), f'coi-slice sat ({len(inside)}/{len(asserts)} assertions; rest {r2})'
+
+
 def _run_one(job):
     oid, smt2, timeout_s, want_model, model_vars = job
     smoke = timeout_s <= 4 and ('(forall' in smt2 or '(exists' in smt2)
@@ -38,6 +104,19 @@ def _run_one(job):
         res['verdict'] = 'error'
         res['raw'] = f'{type(e).__name__}: {str(e)[:300]}'
     res['time_s'] = time.time() - t0
+    if res['verdict'] == 'unknown' and not smoke and ('(forall' in smt2 or '(exists' in smt2):
+        try:
+            t1 = time.time()
+            sl = _coi_slice(smt2, timeout_s)
+            res['time_s'] += time.time() - t1
+            if sl is not None:
+                res['verdict'], res['backend'] = sl[0], 'z3-coi'
+                res['raw'] += ' | ' + sl[2]
+                if sl[1] is not None:
+                    res['model'], raw_model = sl[1]
+                    res['raw'] = raw_model + ' | ' + res['raw']
+        except Exception as e:
+            res['raw'] += f' | coi-slice failed: {type(e).__name__}: {str(e)[:200]}'
     if res['verdict'] == 'unknown' and smoke:
         res['backend'] = 'z3-smoke(not-refuted)'
     elif res['verdict'] == 'unknown' and os.path.exists(CVC5):
